@@ -15,6 +15,8 @@ TStep ==
   /\ LET e == Traces[tid].steps[l] IN
        /\ Run(e.cfg)
        /\ res'.out = e.obs.out /\ res'.err = e.obs.err /\ res'.error = e.obs.error
+       \* a redirect operator never reaches the command as an argument
+       /\ e.obs.extra_args = 0
        /\ used' = IF res'.dev = "" THEN used ELSE used \cup {res'.dev}
   /\ l' = l + 1 /\ tid' = tid
 
